@@ -218,11 +218,15 @@ def run_fifo(case, rng):
                 cyc, off = om.log[i][0], om.offered_at[i]
                 info = {"index": i, "delivered": b_, "offered_at_b_cycle": off, "delivered_at_b_cycle": cyc,
                         "reset_windows": reset_windows[:6]}
-                last = [r_ for r_ in reset_windows if r_[0] <= cyc]
+                last = [r_ for r_ in reset_windows if r_[0] <= (off if (buffered and off is not None) else cyc)]
                 known = False
                 if last:
                     r_ = last[-1]
-                    inside = r_[1] is None or cyc <= r_[1] + 10 or a_at_b.get(cyc, 0) <= r_[2] + 10
+                    # buffered crossings: the FIFO's reader is the always-ready output register, which takes the phantom inside the
+                    # window and then offers it to the consumer for as long as the consumer likes: the instant that matters is
+                    # the one at which the token was first OFFERED at the source, not the one at which a slow consumer took it
+                    tref = off if (buffered and off is not None) else cyc
+                    inside = r_[1] is None or tref <= r_[1] + 10 or a_at_b.get(tref, 0) <= r_[2] + 10
                     if quiet:
                         info["consumer_stalled_around_resets"] = True
                     elif inside:
